@@ -1368,12 +1368,12 @@ func (fx *FnExec) bytesOf(st *State, v CVal) *Term {
 	byteT := types.Typ[types.Uint8]
 	switch x := v.V.(type) {
 	case SliceV:
-		return fx.rngTerm(fx.elemArray(st, byteT, x.Ref), x.Off, x.Len)
+		return fx.rngTermRef(fx.elemArray(st, byteT, x.Ref), x.Off, x.Len, x.Ref)
 	case StrV:
 		return fx.rngTerm(x.Arr, x.Off, x.Len)
 	case PtrV:
 		if at, ok := under(x.Elem).(*types.Array); ok && x.Kind == PObj {
-			return fx.rngTerm(fx.elemArray(st, at.Elem(), x.Ref), fx.bv64(0), fx.bv64(at.Len()))
+			return fx.rngTermRef(fx.elemArray(st, at.Elem(), x.Ref), fx.bv64(0), fx.bv64(at.Len()), x.Ref)
 		}
 	case *Term:
 		if x.Sort == byteArr && v.T != nil {
@@ -1567,11 +1567,16 @@ func fieldFuncSig(pkg *types.Package, tname, f string) *types.Signature {
 
 // ---- abstract byte strings rng(array, off, len) and their stability under writes elsewhere
 
-type rngRec struct{ arr, off, ln *Term }
+type rngRec struct{ arr, off, ln, ref *Term }
 
 // rngTerm builds rng(arr, off, len) and remembers it, so that a later write to the array
 // outside [off, off+len) can carry the abstract byte string over to the updated array.
 func (fx *FnExec) rngTerm(arr, off, ln *Term) *Term {
+	return fx.rngTermRef(arr, off, ln, nil)
+}
+
+// rngTermRef also remembers which object's array this is (needed to carry the byte string across joins)
+func (fx *FnExec) rngTermRef(arr, off, ln, ref *Term) *Term {
 	t := fx.c.App("rng", UnintSort("Bytes"), arr, off, ln)
 	if !t.open && !fx.noAssume {
 		if fx.rngSeen == nil {
@@ -1579,7 +1584,7 @@ func (fx *FnExec) rngTerm(arr, off, ln *Term) *Term {
 		}
 		if !fx.rngSeen[t] {
 			fx.rngSeen[t] = true
-			fx.rngs = append(fx.rngs, rngRec{arr, off, ln})
+			fx.rngs = append(fx.rngs, rngRec{arr, off, ln, ref})
 		}
 	}
 	return t
@@ -1611,7 +1616,7 @@ func (fx *FnExec) arrayUpdated(oldArr, newArr, wlo, wlen *Term) {
 		fx.assumeGlobal(c.Implies(disjoint, c.Eq(nt, ot)))
 		if !fx.rngSeen[nt] {
 			fx.rngSeen[nt] = true
-			fx.rngs = append(fx.rngs, rngRec{newArr, r.off, r.ln})
+			fx.rngs = append(fx.rngs, rngRec{newArr, r.off, r.ln, r.ref})
 			added++
 		}
 	}
